@@ -1,5 +1,6 @@
 import JSight.NoCrash
 import JSight.RenderProofs
+import JSight.EnumNoCrash
 /-!
 # C07 — no panics: the parts that are theorems
 
@@ -7,6 +8,12 @@ import JSight.RenderProofs
   outcome ("Reading from empty stack", "Incorrect ending of the lexical event", index out of range);
   for every byte string and both modes the model never reaches one: every error is the structured
   "invalid character" / "unexpected end of file" / "empty JSON" error.
+* `C07_enum_no_crash`, `C07_enum_len_no_crash`: the same for the enum-rule scanner model (`rules/enum/scanner.go`:
+  `Next` over the whole text, and `Length`): for every byte string no "Reading from empty stack", no "incorrect
+  ending of the lexical event", and the fuel parameters that make the model total never run out — every error
+  is one of the structured ones (array expected, invalid character, duplicate value, unexpected end of file).
+  Invariant: the queued finds replay against the lexeme stack and what is left has the shape fixed by the step
+  function and the return stack.
 * `C07_render_total`: producing the `Error()` text never indexes outside the content.
 * template / argument agreement at every error construction site: `JSight.Tie.Errors` over the table
   regenerated from /repo's source on every run.
@@ -18,6 +25,12 @@ open JsonScan
 theorem C07_json_no_crash (allow : Bool) (bs : List UInt8) :
     ∀ e, run allow Cfg.init (bs.map classify) = .error e → Sim.Err.isCrash e = false :=
   Sim.C07_json_no_crash allow bs
+
+theorem C07_enum_no_crash (bs : List UInt8) : ∀ e, EnumScan.scanAll bs = .error e → EnumScan.Err.isCrash e = false :=
+  EnumScan.scanAll_no_crash bs
+
+theorem C07_enum_len_no_crash (bs : List UInt8) : ∀ e, EnumScan.length bs = .error e → EnumScan.Err.isCrash e = false :=
+  EnumScan.length_no_crash bs
 
 theorem C07_render_total (content : Array UInt8) (idx : Nat) (h : idx < content.size) :
     (Render.render content idx).isSome = true := Render.render_total content idx h
